@@ -45,8 +45,8 @@ func builtinStringFromCharCode(call FunctionCall) Value {
 func builtinStringCharAt(call FunctionCall) Value {
 	checkObjectCoercible(call.runtime, call.This)
 	idx := int(call.Argument(0).number().int64)
-	chr := stringAt(newStringObject(call.This.string()), idx)
-	if chr == utf8.RuneError {
+	chr, ok := stringAt(newStringObject(call.This.string()), idx)
+	if !ok {
 		return stringValue("")
 	}
 	return stringValue(string(chr))
@@ -55,8 +55,8 @@ func builtinStringCharAt(call FunctionCall) Value {
 func builtinStringCharCodeAt(call FunctionCall) Value {
 	checkObjectCoercible(call.runtime, call.This)
 	idx := int(call.Argument(0).number().int64)
-	chr := stringAt(newStringObject(call.This.string()), idx)
-	if chr == utf8.RuneError {
+	chr, ok := stringAt(newStringObject(call.This.string()), idx)
+	if !ok {
 		return NaNValue()
 	}
 	return uint16Value(uint16(chr))
